@@ -303,7 +303,8 @@ NP_POOLS = {
 LIST_POOL = G.OBJ_POOL + [["none"], ["nan"], ["str", ""], ["str", "true"], ["str", "false"], ["str", "1.5"], ["str", "2"],
                           ["str", "2020-01-01 10:00:00"], ["str", "127.0.0.1"], ["str", "http://a.b/c"], ["str", "/a/b"],
                           ["str", "a@b.c"], ["str", "POINT (1 2)"], ["str", "0b8a22ca-80ad-4df5-85ac-fa49c44b7ede"],
-                          ["str", "1+2j"], ["str", "05"], ["float", 2.0], ["float", 3.0], ["complex", 2, 0], ["int", 5]]
+                          ["str", "1+2j"], ["str", "05"], ["float", 2.0], ["float", 3.0], ["complex", 2, 0], ["int", 5],
+                          ["nparr"], ["pdser"]]
 
 
 def _gv(r):
@@ -323,6 +324,10 @@ def _gv(r):
         return pd.Timestamp(r[1])
     if r[0] == "pytd":
         return pd.Timedelta(hours=r[1])
+    if r[0] == "nparr":
+        return np.array([1, 2])            # an element whose `== None` / truth value is an array
+    if r[0] == "pdser":
+        return pd.Series([1, 2])
     return None
 
 
@@ -410,7 +415,11 @@ FAMILY_SEQ = {
              ("datetime strings", [["str", "2020-01-01 10:30:00"], ["str", "2021-05-06 01:02:03"]], "DateTime"),
              ("url strings", [["str", "http://a.b/c"], ["str", "https://x.y/z"]], "URL"), ("path strings", [["str", "/home/u/f.txt"], ["str", "/a"]], "Path"),
              ("ip strings", [["str", "127.0.0.1"], ["str", "::1"]], "IPAddress"), ("email strings", [["str", "test@example.com"]], "EmailAddress"),
-             ("geometry strings", [["str", "POINT (1 2)"]], "Geometry")],
+             ("geometry strings", [["str", "POINT (1 2)"]], "Geometry"),
+             # values that are all falsy are values all the same
+             ("zeros", [["int", 0], ["int", 0]], "Integer"), ("zero floats", [["float", 0.0], ["float", 0.0]], "Integer"),
+             ("all False", [["bool", False], ["bool", False]], "Boolean"), ("empty strings", [["str", ""], ["str", ""]], "String"),
+             ("zero timedelta", [["td", 0]], "TimeDelta"), ("zero complex", [["complex", 0, 0]], "Float")],
     "numpy": [("ints", [["int", -1], ["int", 2], ["int", 30]], "Integer"), ("floats", [["float", 1.5], ["float", 2.5]], "Float"),
               ("integral floats", [["float", 1.0], ["float", 2.0]], "Integer"), ("bools", [["bool", True], ["bool", False]], "Boolean"),
               ("text", [["str", "hello"], ["str", "a b"]], "String"), ("int strings", [["str", "10001"], ["str", "20002"]], "Integer"),
@@ -419,7 +428,9 @@ FAMILY_SEQ = {
               ("complex strings", [["str", "1+2j"], ["str", "3j"]], "Complex"),
               ("datetimes", [["npdt", "2020-01-01T10:00"], ["npdt", "2021-05-06T01:02:03"]], "DateTime"),
               ("timedeltas", [["nptd", 1], ["nptd", 5]], "TimeDelta"),
-              ("datetime strings", [["str", "2020-01-01 10:30:00"], ["str", "2021-05-06 01:02:03"]], "DateTime")],
+              ("datetime strings", [["str", "2020-01-01 10:30:00"], ["str", "2021-05-06 01:02:03"]], "DateTime"),
+              ("zeros", [["int", 0], ["int", 0]], "Integer"), ("zero floats", [["float", 0.0], ["float", 0.0]], "Integer"),
+              ("all False", [["bool", False], ["bool", False]], "Boolean"), ("empty strings", [["str", ""], ["str", ""]], "String")],
 }
 
 
@@ -478,6 +489,9 @@ def run_backend(tier, seed, backend, n=None, nproc=16):
                         {"values": [["str", "NaN"]] * 6 + [["str", "2"], ["str", "3"]], "npdtype": "object", "stream": "corpus:nan-strings-then-ints"}],
               "list": [{"values": [["bool", False], ["str", "1.5"]], "stream": "corpus:fixed-F22b"},
                        {"values": [["none"]], "stream": "corpus:all-none"},
+                       {"values": [["nparr"], ["nparr"]], "stream": "corpus:array-elements"},
+                       {"values": [["str", "x"], ["nparr"]], "stream": "corpus:string-and-array"},
+                       {"values": [["pdser"], ["none"]], "stream": "corpus:series-element"},
                        {"values": [["str", "yes"], ["str", "no"], ["str", "yes"]], "stream": "corpus:yes-no"},
                        {"values": [["str", "1.5"], ["none"]], "stream": "corpus:float-string-none"},
                        {"values": [["str", "a"], ["str", "b"]], "container": "tuple", "stream": "corpus:fixed-F38"},
